@@ -3,14 +3,26 @@
 #include "common.h"
 #include "of_openfec_api.h"
 #include "applis/eperftool/blocking_struct.h"
+#include <fenv.h>
 
 static uint64_t g_checked;
 
+static void one_mode(uint32_t B, uint32_t L, uint32_t E, int announce, int unique, int mode);
+/* every point in the default floating-point environment and once more under a directed rounding mode (the function computes
+ * with doubles; the structure it returns is defined by integers and must not depend on the caller's rounding direction) */
 static void one(uint32_t B, uint32_t L, uint32_t E, int announce, int unique)
+{
+	static const int modes[3] = { FE_UPWARD, FE_DOWNWARD, FE_TOWARDZERO };
+	one_mode(B, L, E, announce, unique, FE_TONEAREST);
+	int m = modes[(B * 31u + L * 7u + E) % 3];
+	fesetround(m); one_mode(B, L, E, 0, 0, m); fesetround(FE_TONEAREST);
+}
+static void one_mode(uint32_t B, uint32_t L, uint32_t E, int announce, int unique, int mode)
 {
 	if (announce && !rep_case("B=%u L=%u E=%u", B, L, E)) return;
 	of_blocking_struct_t bs; memset(&bs, 0xAB, sizeof bs);
 	of_compute_blocking_struct(B, L, E, &bs);
+	if (mode != FE_TONEAREST) { fesetround(FE_TONEAREST); rep_count("points_checked_under_a_directed_rounding_mode", 1); }
 	uint64_t T = ((uint64_t)L + E - 1) / E;
 	uint64_t N = (T + B - 1) / B;
 	uint64_t As = T / N, Al = (T + N - 1) / N, I = T - As * N;
